@@ -1,11 +1,14 @@
 //! tvh: conformance harness binding the TLA+ specifications in /verif/spec to triomphe.
 
 mod alloc;
+mod compare;
+mod ctor;
 mod ev;
 mod extract;
 mod payload;
 mod sized;
 mod thin;
+mod threads;
 mod uninit;
 mod trace;
 
@@ -147,6 +150,31 @@ fn main() {
     }
     match args[0].as_str() {
         "replay" => replay(&args[1..]),
+        "compare" => {
+            if args.len() < 5 {
+                usage();
+            }
+            trace::uninstall();
+            compare::run(&args[1], &args[2], &args[3], &args[4]);
+        }
+        "threads" => {
+            if args.len() < 5 {
+                usage();
+            }
+            threads::run_many(args[1].parse().unwrap_or(1), args[2].parse().unwrap_or(2), args[3].parse().unwrap_or(20), &args[4]);
+        }
+        "ctor" => {
+            if args.len() < 3 {
+                usage();
+            }
+            ctor::run(&args[1], &args[2]);
+        }
+        "allocfail" => {
+            if args.len() < 3 {
+                usage();
+            }
+            ctor::allocfail(&args[1], args[2].parse().unwrap_or(1));
+        }
         "extract" => {
             if args.len() < 2 {
                 usage();
